@@ -27,6 +27,10 @@ CHECKS = {
          "Multi-generation Save/Load with Clean in between; loaded instance compared with original and model; both receive the same continuation.", "3/C11"),
  "C12": ("fault_enumeration", "fault injection: every prefix of the journalled Write/Remove sequence of each Clean/Save is loaded by a fresh repository and checked",
          "Per history the crash points of every maintenance op are enumerated exhaustively (each key write atomic); histories themselves are sampled.", "3/C12"),
+ "C13": ("exploration", "runtime monitoring: spies on header repository / peer book / tx processor and on the bytes the scripted peer receives while a real BitcoinNode (and a real NodeManager) is connected to unverified scripted peers over loopback; race detector",
+         "Hundreds to thousands of sessions in which the peer sends every message kind before, during and around a failing verification; zero-contact oracle evaluated while Verified() is false.", "3/C13"),
+ "C14": ("exploration", "runtime monitoring: ping/pong barrier after generated well-formed message sequences against a real BitcoinNode over loopback; close-cause classifier; race detector",
+         "Seeded sequences over the full command set incl. made-up commands, classic and extended framing, payloads up to several MB, every block/tx state; a pong must follow each sequence.", "3/C14"),
  "C17": ("exploration", "runtime monitoring: reference model with invalid marks vs repository after every mark/unmark/submit/Save/Load",
          "Marks on best chain at several depths, side branches, unseen and unknown hashes, repeated marks, unmark+resubmit, reload.", "3/C17"),
  "C18": ("fault_enumeration", "fault injection: every single-element corruption of each valid merkle proof (built by a reference implementation) must be rejected; valid proofs must report the model's height and best-chain flag",
